@@ -538,6 +538,12 @@ func (p *Parser) evaluateValues(ctx context) (evaluatedValues, error) {
 			return evaluatedValues{}, p.expectedError(fmt.Sprintf(`only one return value from function "%s"`, funcName), exprToken)
 		}
 	}
+	// A function call with multiple return values must be the only value.
+	if length := len(expressions); length > 1 {
+		if call, ok := expressions[length-1].(Call); ok && len(call.ReturnTypes()) > 1 {
+			return evaluatedValues{}, fmt.Errorf("a call with multiple return values cannot be part of a value list")
+		}
+	}
 	return evaluatedValues{
 		values: expressions,
 	}, nil
